@@ -261,7 +261,11 @@ def shrink_failure(ctx: Ctx, failure: dict) -> dict:
     progress = True
     while progress and time.time() < deadline:
         progress = False
-        for cand in shrink(cur["case"]):
+        try:
+            cands = list(shrink(cur["case"]))
+        except Exception:  # noqa: BLE001  (a shrinker that does not know this kind of case: keep the case as it is)
+            break
+        for cand in cands:
             if time.time() > deadline:
                 break
             try:
